@@ -42,7 +42,12 @@ fn lib_messages() -> HashMap<String, String> {
 fn case_with(t: &mut Tape, st: &mut Stats, max_stmts: usize) -> Verdict {
     ensure_spellings();
     let p = gen_program(t, GenCfg { functions: true, failures: true, max_depth: 4, max_stmts, long_loops: false, probe_conditions: false });
-    let rendered = render(&p, t, true);
+    let mut rendered = render(&p, t, true);
+    // one script in five has CRLF line ends (line numbers count lines, not characters)
+    if t.chance(1, 5) {
+        rendered.text = rendered.text.replace('\n', "\r\n");
+        st.class("script-with-crlf-line-ends");
+    }
     let file_mode = t.chance(1, 4);
     let path = if file_mode { Some(format!("{}/c10-{:?}.ds", scratch_root(), std::thread::current().id())) } else { None };
     let mut m = Model::new(&p, 3000);
@@ -330,6 +335,45 @@ fn case_two_runs(t: &mut Tape, st: &mut Stats) -> Verdict {
     Verdict::Pass(Some(fp(&(&run1, &run2))))
 }
 
+
+/// (messages) an error message is data: whatever text a failing command reports - delivered here through a variable -
+/// is what get_last_error returns and what the failure carries once exit_on_error is on.
+fn case_messages(t: &mut Tape, st: &mut Stats) -> Verdict {
+    let mut msg = match t.below(3) {
+        0 => t.pick(&["cost \\${price}", "100\\% done", "C:\\%TEMP%\\x", "a\\$b", "\\${", "${price}", "%{price}", "50% off", "a#b", "say \"hi\"", " padded ", "é😀", "back\\slash"]).to_string(),
+        _ => {
+            let mut s = crate::gen::hazard_string(t, 4);
+            s.retain(|c| c != '\0');
+            s
+        }
+    };
+    if msg.is_empty() {
+        msg = "m".to_string();
+    }
+    if msg.contains("\\$") || msg.contains("\\%") {
+        st.class("message-with-a-backslash-before-dollar-or-percent");
+    }
+    let fatal = t.flip();
+    let script = format!("price = set 7\nm = put 0\n{}e = trigger_error ${{m}}\ng = get_last_error\nemit got ${{g}}\n", if fatal { "exit_on_error true\n" } else { "" });
+    hz_reset();
+    with_hz(|h| h.side = vec![msg.clone()]);
+    let out = run_text(&script, sdk_context(), 5_000, None);
+    let d = |what: &str, extra: serde_json::Value| json!({"script": script, "message": msg, "mismatch": what, "detail": extra});
+    if fatal {
+        match &out.result {
+            Err(ScriptError::Runtime(m, Some(meta))) if *m == msg && meta.line == Some(4) => Verdict::Pass(Some(fp(&(&msg, fatal)))),
+            other => fail("C10/messages/fatal-error-message", d("the failure must carry the message and line 4", json!(match other { Ok(_) => "Ok".to_string(), Err(e) => format!("{:?}", e) }))),
+        }
+    } else {
+        let got: Vec<Vec<String>> = with_hz(|h| h.trace.iter().filter(|e| e.cmd == "emit").map(|e| e.args.clone()).collect());
+        match &out.result {
+            Ok(c) if c.variables.get("g") == Some(&msg) && c.variables.get("e").map(|s| s.as_str()) == Some("false") && got == vec![vec!["got".to_string(), msg.clone()]] => Verdict::Pass(Some(fp(&(&msg, fatal)))),
+            Ok(c) => fail("C10/messages/last-error-message", d("get_last_error must return the message", json!({"get_last_error": c.variables.get("g"), "output": c.variables.get("e"), "emitted": got}))),
+            Err(e) => fail("C10/messages/run-error", d("run failed", json!(format!("{:?}", e)))),
+        }
+    }
+}
+
 fn case_q(t: &mut Tape, st: &mut Stats) -> Verdict {
     case_with(t, st, 40)
 }
@@ -340,7 +384,7 @@ fn case_t(t: &mut Tape, st: &mut Stats) -> Verdict {
 pub fn property() -> Property {
     Property {
         id: "C10",
-        rule: "C04/C05 programs with failing commands planted at arbitrary statement positions (top level, function bodies, loop bodies, branches): trigger_error with plain and syntax-bearing messages (${..}, %, #) and library commands that fail on their own (array_get / array_pop / array_length on a missing handle, substring out of range, map_get and calc without arguments, the script-implemented array_join), with and without output variable, several in sequence, exit_on_error toggled mid-script (the state written as any truthy / falsy spelling), set_error statements in between (they replace the stored error and nothing else), run from text and from file; (included) the same programs with the function definitions in an included file, the including script being a file or a text without a source of its own. (two-runs) a second script run on the context returned by a first run - which turned exit_on_error on or off and / or recorded an error, and ended at its last line or by exit / exit 0 - must see the mode and the last error of the first. Each failing line is followed by get_last_error / get_last_error_line / get_last_error_source reads and an emit. Oracle: reference interpreter (output variable 'false', latest error's message/line/source, continue with the next instruction; once exit_on_error is on the first error ends the run with Err(message, line, source)); library messages are taken from a direct call of the same command. Non-trivial: >= 2 errors or an error with function calls around; distinct by (script, mode)",
+        rule: "C04/C05 programs with failing commands planted at arbitrary statement positions (top level, function bodies, loop bodies, branches): trigger_error with plain and syntax-bearing messages (${..}, %, #) and library commands that fail on their own (array_get / array_pop / array_length on a missing handle, substring out of range, map_get and calc without arguments, the script-implemented array_join), with and without output variable, several in sequence, exit_on_error toggled mid-script (the state written as any truthy / falsy spelling), set_error statements in between (they replace the stored error and nothing else), run from text and from file; (included) the same programs with the function definitions in an included file, the including script being a file or a text without a source of its own. (messages) hazard texts incl. backslash before '$' / '%' reported by trigger_error through a variable: get_last_error returns the text, and with exit_on_error on the failure carries it; one script in five of the program sections has CRLF line ends; (two-runs) a second script run on the context returned by a first run - which turned exit_on_error on or off and / or recorded an error, and ended at its last line or by exit / exit 0 - must see the mode and the last error of the first. Each failing line is followed by get_last_error / get_last_error_line / get_last_error_source reads and an emit. Oracle: reference interpreter (output variable 'false', latest error's message/line/source, continue with the next instruction; once exit_on_error is on the first error ends the run with Err(message, line, source)); library messages are taken from a direct call of the same command. Non-trivial: >= 2 errors or an error with function calls around; distinct by (script, mode)",
         assumptions: &[
             "failing commands are not planted in condition position, and programs that reach one inside a function called in condition position are discarded",
             "expected message of a library error = the message of a direct call of the same command on a fresh context",
@@ -353,7 +397,7 @@ pub fn property() -> Property {
                     Tier::Thorough => Plan::Random { cases: 3_000_000, max_len: 900 },
                 },
                 case: case_q,
-                min_classes: &[("several-errors-in-sequence", 3000), ("exit_on_error-fatal", 1000), ("file-mode", 2000), ("error-with-function-calls-around", 3000), ("exit_on_error-state-spelled-other-than-true-false", 3000), ("fatal-error-after-set_error-in-exit_on_error-mode", 80)],
+                min_classes: &[("several-errors-in-sequence", 3000), ("exit_on_error-fatal", 1000), ("file-mode", 2000), ("error-with-function-calls-around", 3000), ("exit_on_error-state-spelled-other-than-true-false", 3000), ("fatal-error-after-set_error-in-exit_on_error-mode", 80), ("script-with-crlf-line-ends", 10000)],
             },
             Section {
                 name: "included",
@@ -363,6 +407,15 @@ pub fn property() -> Property {
                 },
                 case: case_included,
                 min_classes: &[("error-inside-included-file", 1000), ("error-in-including-file-after-directive", 1000), ("error-in-text-after-error-in-included-file", 100)],
+            },
+            Section {
+                name: "messages",
+                plan: |t| match t {
+                    Tier::Quick => Plan::Random { cases: 30_000, max_len: 40 },
+                    Tier::Thorough => Plan::Random { cases: 600_000, max_len: 40 },
+                },
+                case: case_messages,
+                min_classes: &[("message-with-a-backslash-before-dollar-or-percent", 2000)],
             },
             Section {
                 name: "two-runs",
